@@ -74,7 +74,25 @@ def _apply_tx(model, t, owned_addrs, sent):
         if o.address in owned_addrs:
             model.out[(t.txid, o.output_n)] = {'value': int(o.value), 'address': o.address, 'spent': False, 'conf': 0}
     model.txs.append({'txid': t.txid, 'inputs': ins, 'outputs': outs, 'raw': t.raw().hex(), 'sent': sent,
-                      'in_values': [int(i.value) for i in t.inputs]})
+                      'in_values': [int(i.value) for i in t.inputs], 'in_detail': _in_detail(t)})
+
+
+def _in_detail(t):
+    """What an input of a transaction says beyond its outpoint and value: address, keys, redeem script, number of
+    signatures - and whether the transaction verifies."""
+    det = []
+    for i in t.inputs:
+        det.append({'address': i.address, 'keys': [k.public_hex for k in i.keys],
+                    # (single-key inputs: the attribute holds the script code used while signing, it is not part of
+                    # the input; for multisig inputs it is the redeem / witness script)
+                    'redeemscript': bytes(i.redeemscript or b'').hex() if len(i.keys) > 1 else '',
+                    # (a wallet holding more than m private keys signs with all of them, only m are serialized)
+                    'signatures': min(len(i.signatures), i.sigs_required or 1)})
+    try:
+        ok = bool(t.verify())
+    except Exception as e:
+        ok = 'raise:' + type(e).__name__
+    return {'inputs': det, 'verifies': ok}
 
 
 def _addresses(w):
@@ -204,7 +222,8 @@ def _do_event(w, ev, model, cfg, rec):
             model.txs = [x for x in model.txs if x['txid'] != t2.txid]     # same id: stored once
             model.txs.append({'txid': t2.txid, 'inputs': [(i.prev_txid.hex(), i.output_n_int) for i in t2.inputs],
                               'outputs': [(o.output_n, o.address, int(o.value)) for o in t2.outputs],
-                              'raw': t2.raw().hex(), 'sent': False, 'in_values': [int(i.value) for i in t2.inputs]})
+                              'raw': t2.raw().hex(), 'sent': False, 'in_values': [int(i.value) for i in t2.inputs],
+                              'in_detail': _in_detail(t2)})
             for o in t2.outputs:
                 if o.address in owned:
                     model.out[(t2.txid, o.output_n)] = {'value': int(o.value), 'address': o.address, 'spent': False,
@@ -462,6 +481,17 @@ def _reload_txs(w, model, tag):
         if raw != t['raw']:
             devs.append({'sig': 'transaction_reload|raw|after_%s' % tag,
                          'detail': {'txid': t['txid'], 'got': raw[:300], 'expected': t['raw'][:300]}})
+        elif t.get('in_detail'):
+            got = _in_detail(lt)
+            exp = t['in_detail']
+            for n, (a, b) in enumerate(zip(exp['inputs'], got['inputs'])):
+                for f in ('address', 'keys', 'redeemscript', 'signatures'):
+                    if a[f] != b[f]:
+                        devs.append({'sig': 'transaction_reload|input_%s|after_%s' % (f, tag),
+                                     'detail': {'txid': t['txid'], 'input': n, 'stored': a[f], 'reloaded': b[f]}})
+            if exp['verifies'] != got['verifies']:
+                devs.append({'sig': 'transaction_reload|verifies|after_%s' % tag,
+                             'detail': {'txid': t['txid'], 'stored': exp['verifies'], 'reloaded': got['verifies']}})
     return devs
 
 
